@@ -79,6 +79,8 @@ RepeatSaveViol(ev) ==
     \* (not after random block-graph edits: those may leave several candidate roots, and which one a sort puts first is C04's)
     \cup V(ev.variant = "edited" \/ (ev.namesBefore = ev.namesAfterFirst /\ ev.namesAfterFirst = ev.namesEnd), "NamedAnswersUnchangedByAnySave")
     \cup V(ev.q1 = ev.q2 /\ ev.q2 = ev.q3, "QueriesUnchangedByLaterSaves")
+    \* a save that neither sorts nor prunes: the saved model answers like a twin of it that was never saved
+    \cup V(~ev.twinComparable \/ ev.qTwin = ev.q0, "SavedModelAnswersLikeItsUnsavedTwin")
 
 (* ---------------- C03: blocks relabelled as unknown survive untouched ---------------- *)
 \* f: the input file (types of the set U relabelled), g: what Load+Save wrote
